@@ -12,7 +12,7 @@ CONSTANTS
   F_BIND = FALSE
   F_ACKCB_SRC_ONLY = TRUE
   F_STATUS = TRUE
-  F_RELAY_DST_ERRACK = FALSE
+  F_RELAY_DST_ERRACK = TRUE
 SPECIFICATION TraceSpec
 INVARIANT Done
 CHECK_DEADLOCK FALSE
